@@ -100,3 +100,18 @@ Theorem C19_line_references_carry_number_ranges : forall n toks ast s, parse n t
   forall a c sym, In (a, (c, sym)) (l_unlinked (snd (fst (cg_stmt s)))) -> (0 <= sym)%Z -> num_range toks c.
 Proof. exact line_references_carry_number_ranges. Qed.
 Print Assumptions C19_line_references_carry_number_ranges.
+
+(* the numbers of the diagnostics are the source's (coq/Gen/SourceTables.v is regenerated from enum ErrorCode by tools/tables.py
+   on every run; Proofs/SourceTables.v) *)
+From BL Require Import Base.Prelude Gen.SourceTables Proofs.SourceTables.
+Theorem C19_error_codes_are_the_sources :
+  E_Break = src_E_Break /\ E_NextWithoutFor = src_E_NextWithoutFor /\ E_Syntax = src_E_SyntaxError
+  /\ E_ReturnWithoutGosub = src_E_ReturnWithoutGosub /\ E_OutOfData = src_E_OutOfData
+  /\ E_IllegalFunctionCall = src_E_IllegalFunctionCall /\ E_Overflow = src_E_Overflow /\ E_OutOfMemory = src_E_OutOfMemory
+  /\ E_UndefinedLine = src_E_UndefinedLine /\ E_Subscript = src_E_SubscriptOutOfRange /\ E_Redim = src_E_RedimensionedArray
+  /\ E_DivByZero = src_E_DivisionByZero /\ E_IllegalDirect = src_E_IllegalDirect /\ E_TypeMismatch = src_E_TypeMismatch
+  /\ E_StringTooLong = src_E_StringTooLong /\ E_CantContinue = src_E_CantContinue /\ E_UndefinedFn = src_E_UndefinedUserFunction
+  /\ E_Redo = src_E_RedoFromStart /\ E_LineBufferOverflow = src_E_LineBufferOverflow /\ E_WhileWithoutWend = src_E_WhileWithoutWend
+  /\ E_WendWithoutWhile = src_E_WendWithoutWhile /\ E_Internal = src_E_InternalError /\ E_DirectInFile = src_E_DirectStatementInFile.
+Proof. exact error_codes_are_the_sources. Qed.
+Print Assumptions C19_error_codes_are_the_sources.
